@@ -109,10 +109,65 @@ def _dense_pd(ctx, n, batch, p):
     return O.DenseLinearOperator(A), A
 
 
+def eig_from(ctx, name, batch=()):
+    """A = Q diag(w) Q^T, 2x2, Q a rotation atom, w ascending and >= 1/8 (every PD 2x2 with eigenvalues >= 1/8)"""
+    Q = ctx.rotation2(name + "Q")
+    w = ctx.leaf(name + "w", (2,), lo=0.125, hi=64, ascending=True)
+    A = Q @ torch.diag_embed(w) @ Q.mT
+    ctx.register_eigh(A, w, Q)
+    return A, w, Q
+
+
+@builder("DenseEig", psd=True, pd=True, tags=("eig",))
+def _dense_eig(ctx, n, batch, p):
+    A, w, Q = eig_from(ctx, p + "E")
+    ctx.note("logdet_atoms", torch.log(w).sum())
+    return O.DenseLinearOperator(A), A
+
+
+@builder("KroneckerEig", psd=True, pd=True, tags=("eig",))
+def _kron_eig(ctx, n, batch, p):
+    A, wa, _ = eig_from(ctx, p + "EA")
+    B_, wb, _ = eig_from(ctx, p + "EB")
+    return O.KroneckerProductLinearOperator(A, B_), kron_ref(A, B_)
+
+
+@builder("KroneckerAddedConstDiagEig", psd=True, pd=True, tags=("eig",))
+def _kron_acd_eig(ctx, n, batch, p):
+    A, wa, _ = eig_from(ctx, p + "EA")
+    B_, wb, _ = eig_from(ctx, p + "EB")
+    c = ctx.leaf(p + "c", (1,), positive=True)
+    K = O.KroneckerProductLinearOperator(A, B_)
+    return O.KroneckerProductAddedDiagLinearOperator(K, O.ConstantDiagLinearOperator(c, diag_shape=4)), kron_ref(A, B_) + diag_ref(c.expand(4))
+
+
+@builder("KroneckerAddedKronDiagEig", psd=True, pd=True, tags=("eig",))
+def _kron_akd_eig(ctx, n, batch, p):
+    A, wa, _ = eig_from(ctx, p + "EA")
+    B_, wb, _ = eig_from(ctx, p + "EB")
+    a = ctx.leaf(p + "a", (2,), positive=True)
+    b_ = ctx.leaf(p + "b", (2,), positive=True)
+    K = O.KroneckerProductLinearOperator(A, B_)
+    D = O.KroneckerProductDiagLinearOperator(O.DiagLinearOperator(a), O.DiagLinearOperator(b_))
+    return O.KroneckerProductAddedDiagLinearOperator(K, D), kron_ref(A, B_) + kron_ref(diag_ref(a), diag_ref(b_))
+
+
 @builder("Diag", psd=True, pd=True)
 def _diag(ctx, n, batch, p):
     d = ctx.leaf(p + "d", batch + (n,), positive=True)
     return O.DiagLinearOperator(d), diag_ref(d)
+
+
+@builder("DiagBounded", psd=True, pd=True, tags=("eig",))
+def _diag_bounded(ctx, n, batch, p):
+    d = ctx.leaf(p + "d", (2,), lo=0.125, hi=64)
+    return O.DiagLinearOperator(d), diag_ref(d)
+
+
+@builder("ConstantDiagBounded", psd=True, pd=True, tags=("eig",))
+def _cdiag_bounded(ctx, n, batch, p):
+    c = ctx.leaf(p + "c", (1,), lo=0.125, hi=64)
+    return O.ConstantDiagLinearOperator(c, diag_shape=2), diag_ref(c.expand(2))
 
 
 @builder("DiagSigned")
